@@ -426,6 +426,7 @@ class Delimiter:
     def __init__(self, start, end, string):
         self.type = string[start:end]
         self.number = end - start
+        self.run_length = self.number   # length of the original run, for the rule of three
         self.active = True
         self.start = start
         self.end = end
@@ -454,8 +455,8 @@ class Delimiter:
             # restrictions apply: the sum of the lengths of the delimiter runs
             # containing the opening and closing delimiters must not be a multiple of 3
             # unless both lengths are multiples of 3.
-            return ((self.number + other.number) % 3 != 0
-                    or (self.number % 3 == 0 and other.number % 3 == 0))
+            return ((self.run_length + other.run_length) % 3 != 0
+                    or (self.run_length % 3 == 0 and other.run_length % 3 == 0))
         return True
 
     def __repr__(self):
